@@ -22,13 +22,17 @@ import (
 )
 
 var (
-	scratchOnce sync.Once
 	scratchRoot string
 	caseCounter int
 )
 
 func scratch(t testing.TB) string {
-	scratchOnce.Do(func() {
+	if scratchRoot != "" {
+		if _, err := os.Stat(filepath.Join(scratchRoot, "go.mod")); err == nil {
+			return scratchRoot
+		}
+	}
+	func() {
 		base := os.Getenv("VERIF_SCRATCH")
 		if base == "" {
 			base = os.TempDir()
@@ -47,7 +51,7 @@ func scratch(t testing.TB) string {
 		sum, err := os.ReadFile(filepath.Join(repo, "go.sum"))
 		must(err)
 		must(os.WriteFile(filepath.Join(dir, "go.sum"), sum, 0o644))
-	})
+	}()
 	return scratchRoot
 }
 
@@ -68,6 +72,12 @@ func convert(d XDialect, dir string) (string, error) {
 // convertIn: with zone != nil the conversion runs while the process's local time zone is that zone (the same
 // definition converted on another continent, or after midnight: the same files come out).
 func convertIn(d XDialect, dir string, zone *time.Location) (string, error) {
+	return convertMode(d, dir, zone, false)
+}
+
+// convertMode: link is the generator's second argument (dialect-import --link): messages and enums of included
+// definitions are then taken from the packages of those definitions instead of being written out again.
+func convertMode(d XDialect, dir string, zone *time.Location, link bool) (string, error) {
 	must(os.MkdirAll(dir, 0o755))
 	for _, f := range d.Files {
 		must(os.MkdirAll(filepath.Dir(filepath.Join(dir, f.Name+".xml")), 0o755))
@@ -94,7 +104,7 @@ func convertIn(d XDialect, dir string, zone *time.Location) (string, error) {
 				err = fmt.Errorf("PANIC in Convert: %v", r)
 			}
 		}()
-		return conversion.Convert(d.Files[0].Name+".xml", false)
+		return conversion.Convert(d.Files[0].Name+".xml", link)
 	}()
 	os.Stderr = stderr
 	devnull.Close()
@@ -374,8 +384,17 @@ func goEnv() []string {
 
 // buildAndRun compiles the probe against the generated packages of a batch.
 func buildAndRun(root string) ([]probeDialect, string, error) {
+	return buildAndRunOverlay(root, "")
+}
+
+// buildAndRunOverlay: overlay, when set, is a go build overlay file (generated packages standing where the linked
+// packages of included definitions are imported from, without touching the repository tree).
+func buildAndRunOverlay(root, overlay string) ([]probeDialect, string, error) {
 	bin := filepath.Join(root, "probe.bin")
 	cmd := exec.Command("go", "build", "-o", bin, "./probe")
+	if overlay != "" {
+		cmd = exec.Command("go", "build", "-overlay", overlay, "-o", bin, "./probe")
+	}
 	cmd.Dir = root
 	cmd.Env = goEnv()
 	out, err := cmd.CombinedOutput()
@@ -688,7 +707,7 @@ func snakeInvertible(name string) bool {
 
 func TestC18Generator(t *testing.T) {
 	rec := evid.New(t, "C18", "XML documents printed from a random dialect model (messages with ids up to 2^24-1, scalar/array/char[n]/scalar char/uint8_t_mavlink_version/enum-typed fields, extension marker at every position, non-snake-case field names, ordinary and bitmask enums with decimal/0x/0b/a**b values, include graphs with diamonds and enums extended by the includer, <version> present/absent) are converted by the real conversion.Convert, compiled with go build, and a probe linked against the generated packages dumps ids, CRC_EXTRA, sizes, per-field one-hot encodings, constants and enum text behaviour; all compared with expectations derived from the model; generating twice must give identical trees (the first conversion runs with the local time zone at UTC-12, the second at UTC+14 - another calendar day at any hour - and the command-line tool at UTC+14 as well); definitions with an unknown field type, a malformed enum value or message name must be refused; non-trivial = document with an extension block, an include, a mavname-requiring field or a non-decimal enum value; distinct by hash of the XML")
-	rec.Require("extension", "include", "mavname-field", "non-decimal-enum-value", "leading-zero-decimal", "negative-refused", "bitmask-enum", "enum-field", "scalar-char", "enum-extended-by-includer", "cli-binary-compared", "ordinary-enum-with-power-of-two-values", "bitmask-enum-with-multi-bit-entry", "enum-field-of-a-rarely-supported-integer-type", "array-of-128-or-more-elements", "comment-holding-markup-before-the-extensions-marker", "enum-announced-without-entries-by-an-included-file", "neg-duplicate-message-id")
+	rec.Require("extension", "include", "mavname-field", "non-decimal-enum-value", "leading-zero-decimal", "negative-refused", "bitmask-enum", "enum-field", "scalar-char", "enum-extended-by-includer", "cli-binary-compared", "ordinary-enum-with-power-of-two-values", "bitmask-enum-with-multi-bit-entry", "enum-field-of-a-rarely-supported-integer-type", "array-of-128-or-more-elements", "comment-holding-markup-before-the-extensions-marker", "enum-announced-without-entries-by-an-included-file", "neg-duplicate-message-id", "neg-message-too-big")
 	root := scratch(t)
 	defer os.RemoveAll(root)
 	// the command-line tool built from the same tree: its output must equal the in-process conversion
@@ -704,7 +723,7 @@ func TestC18Generator(t *testing.T) {
 	evid.Check(t, rec, evid.N(50, 200), func(t *rapid.T) {
 		caseCounter++
 		caseDir := fmt.Sprintf("c%d", caseCounter)
-		nb := rapid.IntRange(2, 6).Draw(t, "batch")
+		nb := rapid.IntRange(3, 7).Draw(t, "batch")
 		var batch []XDialect
 		var pkgDirs []string
 		fail := func(d XDialect, format string, a ...interface{}) {
@@ -719,7 +738,12 @@ func TestC18Generator(t *testing.T) {
 		for i := 0; i < nb; i++ {
 			d := drawDialectModel(t, i)
 			negative := rapid.IntRange(0, 5).Draw(t, "negative") == 0
-			if negative {
+			if i == nb-1 {
+				// every case ends with a definition of one of the two kinds that the generator may write out and
+				// the generated package then has to refuse (classes that are required do not depend on luck)
+				negative = true
+				injectDefect(t, &d, "duplicate-message-id", "message-too-big")
+			} else if negative {
 				injectDefect(t, &d)
 			}
 			sub := filepath.Join(caseDir, fmt.Sprintf("g%d", i))
@@ -731,7 +755,7 @@ func TestC18Generator(t *testing.T) {
 			for _, f := range d.Files {
 				xmlAll = append(xmlAll, f.XML()...)
 			}
-			if negative && strings.HasPrefix(d.Negative, "duplicate-message-id") && err == nil {
+			if negative && (strings.HasPrefix(d.Negative, "duplicate-message-id") || strings.HasPrefix(d.Negative, "message-too-big")) && err == nil {
 				// the generator can write both Go types; the dialect that lists them must then refuse to initialize
 				batch = append(batch, d)
 				pkgDirs = append(pkgDirs, sub)
@@ -828,6 +852,13 @@ func TestC18Generator(t *testing.T) {
 			t.Fatalf("BROKEN: batch fails but every member builds alone: %v\n%s", err, out)
 		}
 		for i, d := range batch {
+			if strings.HasPrefix(d.Negative, "message-too-big") {
+				if res[i].InitErr == "" {
+					fail(d, "a message of more than 255 payload bytes (%s) cannot be expressed: the conversion reported nothing and the generated dialect initializes", strings.TrimPrefix(d.Negative, "message-too-big:"))
+				}
+				rec.Case(true, evid.HashS(d.Files[0].XML(), "big"), "negative-refused", "neg-message-too-big")
+				continue
+			}
 			if strings.HasPrefix(d.Negative, "duplicate-message-id") {
 				if res[i].InitErr == "" {
 					fail(d, "two different messages of the include tree have id %s: the conversion reported nothing and the generated dialect initializes (%d messages listed) - one of them went missing without a word", strings.TrimPrefix(d.Negative, "duplicate-message-id:"), len(res[i].Msgs))
